@@ -393,7 +393,7 @@ func (c *codecX) attrsSafe() bool {
 			case *ast.SliceExpr:
 				ok = false
 			case *ast.CallExpr:
-				if m, isSel := selOn(t.Fun, "buf"); isSel {
+				if m, isSel := selOn(t.Fun, "buf"); isSel && m != "Len" { // Len() only inspects
 					if s, known := c.fxSafe[m]; !known || !s {
 						ok = false
 					}
